@@ -223,6 +223,7 @@ func replay(f lib.Flags) int {
 		if err := json.Unmarshal(raw, &c); err != nil {
 			lib.Fatal(err)
 		}
+		verifhook.Set(odelHook)
 		obs := c.runCode()
 		fmt.Printf("replay odel %s -> %s (streams %v)\n", c.key(), obs.answer(), obs.Streams)
 		c.monitor(m, obs)
